@@ -86,6 +86,7 @@ type replay struct {
 	History *recvdrv.History  `json:"history,omitempty"`
 	Pubsub  map[string]string `json:"pubsub,omitempty"`
 	Conc    *concObs          `json:"conc,omitempty"`
+	ConcG   *gObs             `json:"concg,omitempty"`
 	Events  []event           `json:"events,omitempty"`
 }
 
@@ -696,6 +697,7 @@ func main() {
 	c.addrTableChecks()
 	c.mhCases()
 	c.concCases()
+	c.concGCases()
 	c.pubsubCases()
 }
 
@@ -733,6 +735,8 @@ func (c *ctx) runReplay() {
 		c.concReplay(rp.Conc)
 	case "mh":
 		c.mhReplay(rp)
+	case "concg":
+		c.concGReplay(rp.ConcG)
 	default:
 		panic("unknown replay kind")
 	}
